@@ -23,7 +23,8 @@ CONSTANTS
   MaxOps,           \* bound on user edits        (model checking only)
   MaxSaves,         \* bound on saves
   MaxEvents,        \* bound on CONF_CHANGED events
-  Dev               \* named deviations recorded as known findings ({} = what the property needs)
+  Dev,              \* named deviations recorded as known findings ({} = what the property needs)
+  Pairs2            \* another controller's SETCONF may change two options at once (FALSE: one; a bound for model checking)
 
 Options == Scalars \cup Lists
 Def(o) == IF o \in Scalars THEN <<"dflt">> ELSE <<"d1">>     \* Tor's built-in default for an unset option
@@ -44,9 +45,12 @@ VARIABLES
   dirty,    \* options changed since the last acknowledged save
   after,    \* options changed since the pending save was sent
   devUsed,  \* deviations that made this behaviour differ from the ideal one
+  evq,      \* Tor's change announcements (CONF_CHANGED events) not yet delivered to us, in the order Tor applied
+            \* the changes - other controllers' and our own SETCONFs alike; one event = a sequence of
+            \* <<option, values>>, one entry per option the SETCONF changed
   cnt
 
-vars == <<phase, tor, view, tracked, pend, pval, shared, inflight, busy, wire, intent, dirty, after, devUsed, cnt>>
+vars == <<phase, tor, view, tracked, pend, pval, shared, inflight, busy, wire, intent, dirty, after, devUsed, evq, cnt>>
 
 SeqToSet(s) == {s[i] : i \in 1..Len(s)}
 AppendNew(s, x) == IF x \in SeqToSet(s) THEN s ELSE Append(s, x)
@@ -61,7 +65,7 @@ Init ==
   /\ pend = <<>> /\ pval = [o \in Options |-> <<>>] /\ shared = [o \in Options |-> FALSE]
   /\ inflight = <<>> /\ busy = FALSE /\ wire = <<>>
   /\ intent = [o \in Options |-> <<>>] /\ dirty = <<>> /\ after = {}
-  /\ devUsed = {} /\ cnt = [ops |-> 0, saves |-> 0, evs |-> 0]
+  /\ devUsed = {} /\ evq = <<>> /\ cnt = [ops |-> 0, saves |-> 0, evs |-> 0]
 
 SStores == {<<>>} \cup {<<v>> : v \in SVals}
 LStores == UNION {[1..k -> Elems] : k \in 0..MaxLen}
@@ -76,7 +80,7 @@ Attach(store) ==
   /\ view' = [o \in Options |-> IF store[o] = <<>> THEN Def(o) ELSE store[o]]
   /\ intent' = [o \in Options |-> IF store[o] = <<>> THEN Def(o) ELSE store[o]]
   /\ wire' = <<>>
-  /\ UNCHANGED <<tracked, pend, pval, shared, inflight, busy, dirty, after, devUsed, cnt>>
+  /\ UNCHANGED <<tracked, pend, pval, shared, inflight, busy, dirty, after, devUsed, evq, cnt>>
 
 Touch(o) ==
   /\ dirty' = AppendNew(dirty, o)
@@ -90,7 +94,7 @@ Assign(o, v) ==
   /\ pend' = AppendNew(pend, o) /\ pval' = [pval EXCEPT ![o] = v] /\ shared' = [shared EXCEPT ![o] = FALSE]
   /\ intent' = [intent EXCEPT ![o] = v]
   /\ Touch(o) /\ wire' = <<>>
-  /\ UNCHANGED <<phase, tor, view, tracked, inflight, busy, devUsed>>
+  /\ UNCHANGED <<phase, tor, view, tracked, inflight, busy, devUsed, evq>>
 
 \* in-place edit of the list that reading the attribute returns.  Reads return the running
 \* configuration, so when the option has a pending value that is another object (an assignment,
@@ -106,7 +110,7 @@ ListOp(o, newv) ==
      ELSE UNCHANGED <<pend, pval, shared>>       \* an untracked list: the edit goes unnoticed
   /\ intent' = [intent EXCEPT ![o] = newv]
   /\ Touch(o) /\ wire' = <<>>
-  /\ UNCHANGED <<phase, tor, tracked, inflight, busy, devUsed>>
+  /\ UNCHANGED <<phase, tor, tracked, inflight, busy, devUsed, evq>>
 
 \* results of the six wrapped list operations on list l
 EditsOf(l) ==
@@ -135,15 +139,22 @@ SaveSend ==
              /\ view' = [o \in Options |-> IF o \in SeqToSet(pend) THEN pval[o] ELSE view[o]]
              /\ devUsed' = IF asis # ideal THEN devUsed \cup {"c10_emptied_list_not_cleared"} ELSE devUsed
   /\ cnt' = [cnt EXCEPT !.saves = @ + 1]
-  /\ UNCHANGED <<phase, tor, tracked, pend, pval, shared, intent, dirty>>
+  /\ UNCHANGED <<phase, tor, tracked, pend, pval, shared, intent, dirty, evq>>
 
 \* Tor applies the SETCONF
 ValuesFor(ps, o) == LET f == SelectSeq(ps, LAMBDA p : p[1] = o) IN
                     IF Len(f) = 1 /\ f[1][2] = "" THEN <<>> ELSE [i \in 1..Len(f) |-> f[i][2]]
 Named(ps) == {ps[i][1] : i \in 1..Len(ps)}
+\* ... and announces every option whose value changed, to every controller, us included (the echo)
+RECURSIVE Echo(_, _)
+Echo(ps, seen) == IF ps = <<>> THEN <<>>
+                  ELSE LET o == Head(ps)[1] IN
+                       IF o \in seen \/ ValuesFor(inflight, o) = tor[o] THEN Echo(Tail(ps), seen \cup {o})
+                       ELSE << <<o, ValuesFor(inflight, o)>> >> \o Echo(Tail(ps), seen \cup {o})
 SaveAck ==
   /\ busy
   /\ tor' = [o \in Options |-> IF o \in Named(inflight) THEN ValuesFor(inflight, o) ELSE tor[o]]
+  /\ evq' = IF Echo(inflight, {}) = <<>> THEN evq ELSE Append(evq, Echo(inflight, {}))
   /\ LET keep == IF "c10_edits_during_save_lost" \in Dev THEN <<>> ELSE SelectSeq(pend, LAMBDA o : o \in after)
          idealkeep == SelectSeq(pend, LAMBDA o : o \in after)
      IN /\ pend' = keep
@@ -155,28 +166,51 @@ SaveAck ==
 SaveReject ==
   /\ busy
   /\ inflight' = <<>> /\ busy' = FALSE /\ after' = {} /\ wire' = <<>>
-  /\ UNCHANGED <<phase, tor, view, tracked, pend, pval, shared, intent, dirty, devUsed, cnt>>
+  /\ UNCHANGED <<phase, tor, view, tracked, pend, pval, shared, intent, dirty, devUsed, evq, cnt>>
 
-\* another controller changed option o; Tor announces it.  Reads return the new value at once; a
-\* local change of o that is still pending stays pending (save will send it) but is no longer the
-\* object reads return.
-ConfChanged(o, vals) ==
-  /\ phase = "attached" /\ ~busy /\ o \in Options
-  /\ IF o \in Scalars THEN Len(vals) <= 1 /\ SeqToSet(vals) \subseteq SVals ELSE SeqToSet(vals) \subseteq Elems /\ Len(vals) <= MaxLen
-  /\ tor' = [tor EXCEPT ![o] = vals]
-  /\ LET ideal == IF vals = <<>> THEN Def(o) ELSE vals
-         \* known finding: an option announced without a value (back to its default) becomes the literal
-         \* marker (list options) or - for scalar types whose parser rejects the marker - keeps the stale value
-         asis  == IF vals = <<>> /\ "c11_default_marker" \in Dev
-                  THEN (IF o \in Lists THEN {<<"DEFAULT">>} ELSE {view[o], ideal})
-                  ELSE {ideal}
-     IN \E nv \in asis :
-          /\ view' = [view EXCEPT ![o] = nv]
-          /\ devUsed' = IF nv # ideal THEN devUsed \cup {"c11_default_marker"} ELSE devUsed
-  /\ intent' = IF o \in SeqToSet(pend) THEN intent ELSE [intent EXCEPT ![o] = IF vals = <<>> THEN Def(o) ELSE vals]
-  /\ shared' = [shared EXCEPT ![o] = FALSE]
+\* another controller's SETCONF changes one or more options: Tor applies it and queues one announcement
+\* chs: sequence of <<option, values>> over distinct options, each a real change
+OkVals(o, vals) == IF o \in Scalars THEN Len(vals) <= 1 /\ SeqToSet(vals) \subseteq SVals
+                   ELSE SeqToSet(vals) \subseteq Elems /\ Len(vals) <= MaxLen
+OtherChange(chs) ==
+  /\ phase = "attached" /\ Len(chs) >= 1
+  /\ \A i \in 1..Len(chs) : chs[i][1] \in Options /\ OkVals(chs[i][1], chs[i][2]) /\ chs[i][2] # tor[chs[i][1]]
+  /\ \A i, j \in 1..Len(chs) : i # j => chs[i][1] # chs[j][1]
+  /\ LET new(o) == (CHOOSE i \in 1..Len(chs) : chs[i][1] = o)
+         named == {chs[i][1] : i \in 1..Len(chs)}
+     IN /\ tor' = [o \in Options |-> IF o \in named THEN chs[new(o)][2] ELSE tor[o]]
+        \* a local change that the user has not saved (or whose save is in flight) still stands
+        /\ intent' = [o \in Options |-> IF o \in named /\ o \notin SeqToSet(dirty)
+                                         THEN (IF chs[new(o)][2] = <<>> THEN Def(o) ELSE chs[new(o)][2]) ELSE intent[o]]
+  /\ evq' = Append(evq, chs)
   /\ cnt' = [cnt EXCEPT !.evs = @ + 1] /\ wire' = <<>>
-  /\ UNCHANGED <<phase, tracked, pend, pval, inflight, busy, dirty, after>>
+  /\ UNCHANGED <<phase, view, tracked, pend, pval, shared, inflight, busy, dirty, after, devUsed>>
+
+\* the oldest announcement reaches us (at any time: also while a save is in flight, or with local changes
+\* pending); the handler takes its options one by one.  Reads return the announced value at once; a pending
+\* local change of the option stays pending (save will send it) but is no longer the object reads return.
+\* known finding: an option announced without a value (back to its default) becomes the literal marker (list
+\* options) or - for scalar types whose parser rejects the marker - keeps the stale value
+ApplyOne(vw, du, o, vals) ==
+  LET ideal == IF vals = <<>> THEN Def(o) ELSE vals
+      asis  == IF vals = <<>> /\ "c11_default_marker" \in Dev
+               THEN (IF o \in Lists THEN {<<"DEFAULT">>} ELSE {vw[o], ideal})
+               ELSE {ideal}
+  IN {<<[vw EXCEPT ![o] = nv], IF nv # ideal THEN du \cup {"c11_default_marker"} ELSE du>> : nv \in asis}
+RECURSIVE ApplyAll(_, _, _)
+ApplyAll(vw, du, ps) == IF ps = <<>> THEN {<<vw, du>>}
+                        ELSE UNION {ApplyAll(r[1], r[2], Tail(ps)) : r \in ApplyOne(vw, du, Head(ps)[1], Head(ps)[2])}
+Deliver ==
+  /\ phase = "attached" /\ evq # <<>>
+  /\ \E r \in ApplyAll(view, devUsed, Head(evq)) : view' = r[1] /\ devUsed' = r[2]
+  /\ shared' = [o \in Options |-> IF \E i \in 1..Len(Head(evq)) : Head(evq)[i][1] = o THEN FALSE ELSE shared[o]]
+  /\ evq' = Tail(evq) /\ wire' = <<>>
+  /\ UNCHANGED <<phase, tor, tracked, pend, pval, inflight, busy, intent, dirty, after, cnt>>
+
+\* the announcements another controller can cause: one option, or two options in one SETCONF
+Changes == {<< <<o, v>> >> : o \in Options, v \in SStores \cup LStores}
+           \cup (IF Pairs2 THEN {<< <<o1, v1>>, <<o2, v2>> >> : o1 \in Options, o2 \in Options, v1 \in SStores \cup LStores, v2 \in SStores \cup LStores}
+                  ELSE {})
 
 Next ==
   \/ \E store \in Stores : Attach(store)
@@ -185,7 +219,8 @@ Next ==
   \/ \E o \in Lists : \E nv \in EditsOf(view[o]) : ListOp(o, nv) /\ cnt.ops < MaxOps
   \/ SaveSend /\ cnt.saves < MaxSaves
   \/ SaveAck \/ SaveReject
-  \/ \E o \in Options, vals \in SStores \cup LStores : ConfChanged(o, vals) /\ cnt.evs < MaxEvents
+  \/ \E chs \in Changes : OtherChange(chs) /\ cnt.evs < MaxEvents
+  \/ Deliver
 
 Spec == Init /\ [][Next]_vars
 
@@ -195,10 +230,16 @@ Ok(P) == P \/ devUsed # {}
 \* actions; the trace specification checks it against the real transport at every step)
 \* C10: what is pending is exactly what the user changed since the last acknowledged save
 PendingExact == Ok(phase = "attached" /\ ~busy => SeqToSet(pend) = SeqToSet(dirty) /\ \A o \in SeqToSet(pend) : pval[o] = intent[o])
-\* C10: after an acknowledged save with nothing edited meanwhile: Tor has what the user asked for, reads agree
-AfterAck == Ok((phase = "attached" /\ ~busy /\ dirty = <<>>) =>
-                  \A o \in Options : view[o] = intent[o] /\ (tor[o] = intent[o] \/ (tor[o] = <<>> /\ intent[o] \in {<<>>, Def(o)})))
-\* (the same invariant is C11's "the view equals Tor's configuration": intent follows CONF_CHANGED events too)
+\* C10: after an acknowledged save with nothing edited meanwhile (and every announcement delivered): Tor has
+\* what the user asked for, reads agree
+AfterAck == Ok((phase = "attached" /\ ~busy /\ dirty = <<>> /\ evq = <<>>) =>
+                  \A o \in Options : /\ (view[o] = intent[o] \/ (intent[o] = <<>> /\ tor[o] = <<>> /\ view[o] = Def(o)))
+                                      /\ (tor[o] = intent[o] \/ (tor[o] = <<>> /\ intent[o] \in {<<>>, Def(o)})))
+\* (a cleared option reads as empty until Tor's announcement arrives, as its default afterwards)
+\* C11: once Tor's announcements have been delivered, reading an option without local pending change returns
+\* Tor's value (intent follows other controllers' changes too, so AfterAck is the same claim for a clean view)
+ViewIsTor == Ok((phase = "attached" /\ ~busy /\ evq = <<>>) =>
+                  \A o \in Options : o \notin SeqToSet(pend) => (view[o] = tor[o] \/ (tor[o] = <<>> /\ view[o] = Def(o))))
 \* C11: list-valued options stay tracked lists
 Tracked == \A o \in Lists : tracked[o]
 TypeOK == phase \in {"start", "attached"}
